@@ -83,11 +83,17 @@ func NewMemBacking() *MemBacking { return &MemBacking{M: map[string]resource.Res
 
 // Load implements inmem.BackingStore.
 func (b *MemBacking) Load(_ context.Context, h inmem.LoadHandler) error {
+	// like a bbolt read transaction: a consistent snapshot taken at the start, which does not block writers
 	b.mu.Lock()
-	defer b.mu.Unlock()
+	snap := make([]resource.Resource, 0, len(b.M))
 
 	for _, r := range b.M {
-		if err := h(r.Metadata().Type(), r.DeepCopy()); err != nil {
+		snap = append(snap, r.DeepCopy())
+	}
+	b.mu.Unlock()
+
+	for _, r := range snap {
+		if err := h(r.Metadata().Type(), r); err != nil {
 			return err
 		}
 	}
